@@ -12,6 +12,14 @@ checks = {
    technique="deterministic simulation with crash-point enumeration: the process _exits after the k-th mutating file-system call of a seeded ingest history, the shipped start-up runs on the same directory, queries are checked against the event model",
    text="Every mutating file-system call of the flush/rotate/metadata code is a numbered crash point of the simulated disk; the thorough tier takes every k of every explored history (exhaustive per history and schedule), the quick tier a stratified sample. After the crash a fresh process runs the real StartSiglensServer and the oracle checks: start-up succeeds, completed flushes are fully searchable with exact content, the flush in progress is all-or-nothing per query form, no garbage, later ingestion does not overwrite recovered data, no hang.",
    note=TRUST + " Crash model: completed system calls persist (process crash, OS survives). Flush completion is attributed to explicit flush/rotate operations."),
+ "C08": dict(level="exploration", ref="DESIGN.md §4 C08",
+   technique="deterministic simulation: seeded metrics histories (adversarial float/timestamp streams, colliding tag sets) across WAL/rotation/tags-tree/2 h timers on the fake clock and graceful restarts, checked bit by bit against a series reference model",
+   text="The real metrics writer, block/segment rotation driven by its own timers on the simulated clock, tags tree, series readers and PromQL range path are run on seeded histories; every 1-second-step selector answer must equal the model series by series, timestamp by timestamp and bit by bit, before and after block rotation, segment rotation and restart. Exploration is the right level (unbounded value/timestamp/rotation space).",
+   note=TRUST + " Observed through the public range-query path with a 1 s step (one sample per bucket). NaN/Inf are not expressible in the JSON ingest formats and are not generated."),
+ "C09": dict(level="exploration", ref="DESIGN.md §4 C09",
+   technique="deterministic simulation: seeded label sets and value grids queried in several physical states (open, block-rotated, segment-rotated, restarted) and compared with a reference evaluator of the stated PromQL subset",
+   text="Generated selectors (= != =~ !~), aggregations (sum/min/max/avg/count with by/without/none), vector-vector and vector-scalar arithmetic and sum/count ratios are evaluated by the real engine after every history step and compared with a small reference evaluator; the same queries are therefore answered from open and rotated data and across restarts.",
+   note=TRUST + " One sample per step per series on a gap-free grid (no staleness/lookback semantics involved); every series carries every label."),
  "C10": dict(level="fault_enumeration", ref="DESIGN.md §4 C10",
    technique="deterministic simulation with fault enumeration: crash after every fs call of seeded metrics WAL histories followed by real recovery and queries; every truncation length and every byte x {flip,0x00,0xFF} of every WAL file read back through the real WAL iterators",
    text="Three enumerations per seeded history: crash points (end-to-end: recovered datapoints/metric names/segment metadata must include everything whose append completed, be per-series prefixes, contain nothing unwritten, bit-exact), truncations and single-byte corruptions of the WAL files (the real iterators must yield a prefix of the intact sequence). Thorough covers the spaces completely for the explored histories.",
